@@ -973,6 +973,41 @@ func (c *Ctx) functionHasParam(f *ssa.Function, pkgpath, tname string) bool {
 // exchange under the same ID) nothing is stored: the client's exchange must
 // not be evicted.
 func (c *Ctx) checkClientQoS2Receive(r *Report, rule string, cm *gwModel) {
+	// the handler runs exactly once: the PUBREL step that hands the stored PUBLISH to the handlers also completes the
+	// exchange, so a repeated PUBREL (lost PUBCOMP) finds nothing stored and is only acknowledged
+	{
+		e := cm.clientExplorer()
+		outs := e.Explore(cm.snDisp, map[string]aval{"type:sn": kstr("*packets1.Pubrel"), "type:tx": kstr(c.clBrokerPub2Tx())}, nil)
+		key := "client-PUBREL[stored=" + strings.TrimPrefix(c.clBrokerPub2Tx(), "*client.") + "]:delivery-completes-the-exchange"
+		okc := len(outs) > 0
+		detail := ""
+		delivered := false
+		for _, o := range outs {
+			if !(len(o.Ret) > 0 && o.Ret[len(o.Ret)-1] == "nil") {
+				continue
+			}
+			dl, done := false, false
+			for _, ev := range o.Events {
+				if strings.HasPrefix(ev, "go ") || ev == "go" {
+					dl = true
+				}
+				if ev == "tx.Success" {
+					done = true
+				}
+			}
+			if dl {
+				delivered = true
+				if !done {
+					okc, detail = false, "the PUBREL handler delivers the stored PUBLISH to the subscription handlers and acknowledges, but leaves the exchange registered: every retransmitted PUBREL (lost PUBCOMP) delivers the same message again: "+strings.Join(o.Events, " ; ")
+				}
+			}
+		}
+		if len(outs) == 0 || !delivered {
+			r.undecided(rule, key, c.pos(cm.snDisp.Pos()), "no path of the PUBREL case that delivers the stored PUBLISH was found")
+		} else {
+			r.cond(okc, rule, key, c.pos(cm.snDisp.Pos()), "every path that delivers also completes the exchange", detail)
+		}
+	}
 	for _, tx := range []string{"none", c.clBrokerPub2Tx(), c.clPub1Tx(), c.clPub2Tx(), c.clSubscribeTx()} {
 		for _, dup := range []int64{0, 1} {
 			e := cm.clientExplorer()
